@@ -1,10 +1,10 @@
 CHECK = dict(
     level='model_checking',
     parts=[dict(name='sched3', src=['harness/sched.c'], lib=['list.c', 'messageq.c', 'util.c', '@VERIF@/harness/sched_shim.c'], cflags=['-DPROP=3'], workers=12,
-                deadline=dict(quick=100, thorough=1200)),
+                deadline=dict(quick=300, thorough=3000)),
            dict(name='c03s', src=['harness/c06_fibre.c'], cflags=['-DPROP=3', '-Wno-format-truncation'], workers=64,
                 objs=[('@VERIF@/harness/c06_scn.c', ['-fsanitize=thread'])],
-                deadline=dict(quick=150, thorough=1800))],
+                deadline=dict(quick=300, thorough=3000))],
     rule='explicit-state BFS over histories of the real fibre.c scheduler (file-scope state reached by #including fibre.c) '
          'against a FIFO/timer/atomic-queue model; alphabet: fibre_run, fibre_run_atomic, fibre_kill from outside and '
          'fibre_scheduler_next(t) carrying the script the dispatched protothread body executes (up to two of fibre_run / '
